@@ -13,6 +13,7 @@ def setFlag (st : DState) (kv : String) : DState :=
   | ["ghost", v] => { st with cf := { st.cf with ghostBounds := parseBit v } }
   | ["gt", v] => { st with cf := { st.cf with gtTotal := parseBit v } }
   | ["wallet", v] => { st with cf := { st.cf with walletTotal := parseBit v } }
+  | ["msgghost", v] => { st with cf := { st.cf with msgGhostChecked := parseBit v } }
   | _ => st
 
 def slipDump (s : Slip) : String :=
